@@ -47,6 +47,7 @@ def setup(ctx):
     ctx.require("monitor", "client_certs_presented", 300)
     ctx.require("monitor", "live_requests", 10)
     ctx.require("monitor", "wired_through_serve_command", 3)
+    ctx.require("monitor", "live_requests_on_resumed_sessions", 16)
 
 
 def build_capsule(rng, base):
@@ -365,5 +366,41 @@ def run(ctx):
                             ctx.undecided("live-no-data")
                             continue
                         judge(ctx, meta, rules, "public-inside-protected", "toml-live", path, cls, target, cname, ident.fingerprint if ident else None, r["data"], level="L3")
+                # clients that cache TLS sessions: on a resumed session the rules still see the certificate that client
+                # presented (none / listed / unlisted) - a ticket is not a way around them, nor a reason to lock a listed client out
+                import socket as _socket
+                import ssl as _ssl
+
+                protected = [s2 for s2 in sp if s2[2] and s2[1] == "canonical" and policy(rules, s2[2], None)[0] != "admit"][:2]
+                for path, cls, target in protected:
+                    for cname, ident in clients[:2] + clients[3:5]:
+                        for ver in (_ssl.TLSVersion.TLSv1_3, _ssl.TLSVersion.TLSv1_2):
+                            cctx = _ssl.SSLContext(_ssl.PROTOCOL_TLS_CLIENT)
+                            cctx.check_hostname = False
+                            cctx.verify_mode = _ssl.CERT_NONE
+                            cctx.maximum_version = ver
+                            if ident is not None:
+                                cctx.load_cert_chain(ident.certfile, ident.keyfile)
+                            sess = None
+                            for nth in range(3):
+                                got = b""
+                                try:
+                                    sk = cctx.wrap_socket(_socket.create_connection(("127.0.0.1", srv.port), timeout=15), server_hostname="localhost", session=sess)
+                                    reused = sk.session_reused
+                                    sk.sendall(f"gemini://localhost{path}\r\n".encode())
+                                    while True:
+                                        ch = sk.recv(65536)
+                                        if not ch:
+                                            break
+                                        got += ch
+                                    sess = sk.session
+                                    sk.close()
+                                except (OSError, _ssl.SSLError) as e:
+                                    ctx.undecided(f"live-resuming-client:{type(e).__name__}")
+                                    continue
+                                if reused:
+                                    ctx.count("monitor", "live_requests_on_resumed_sessions")
+                                judge(ctx, meta, rules, "public-inside-protected", "toml-live", path, "canonical" if not reused else "canonical", target, cname + (":resumed-session" if reused else ""),
+                                      ident.fingerprint if ident else None, got, level="L3")
     finally:
         shutil.rmtree(base, ignore_errors=True)
